@@ -13,8 +13,8 @@ CONSTANTS
   ShutNum = 1
   ShutDen = 4
   PropTol = 2
-  RandNDropsRemainder = TRUE
-  ShutDownSavesUnderCaller = TRUE
+  RandNDropsRemainder = FALSE
+  ShutDownSavesUnderCaller = FALSE
   Balances = {0, 1, 2, 5}
   MinStakes = {0, 3}
   MaxN = 3
